@@ -292,6 +292,22 @@ def sort_ties():
     return out
 
 
+def rewrite_patterns():
+    """regexes around the `.*` stripping of the rewrite pass: the pattern that IS `.*`, doubled,
+    overlapping, escaped, inside groups, in lists and in regex sets built by shake"""
+    out = []
+    docs = [{"f": "foo"}, {"f": ""}, {"f": "xfoox"}, {"f": ".*"}, {"f": "a.b"}, {"f": 5}, {"f": ["x", "foo"]}, {}]
+    pats = ["?.*", "i?.*", "?.*.*", "?.*.*.*", "?.*foo", "?foo.*", "?.*foo.*", "?.*.*foo.*.*", "?..*", "?.*.", "?\\.*", "?.*\\.*", "?(.*)", "?.*|foo",
+            "?foo|.*", "?.*?", "?.*?foo", "?.*+", "?.*{2}", "?.*(", "?[.*]", "?.", "?", "i?.*FOO.*", "?.*\\", "?^.*$", "?.*$", "?^.*"]
+    for p in pats:
+        out.append(({"A": {"f": p}, "condition": "A"}, docs))
+        out.append(({"A": {"f": [p, "?bar"]}, "condition": "not A"}, docs))
+    out.append(({"A": {"f": "?.*"}, "B": {"f": "?.*foo"}, "C": {"f": "?foo.*"}, "condition": "A or B or C"}, docs))
+    out.append(({"A": {"f": ["?.*", "?.*.*", "i?.*"]}, "condition": "all(A) or of(A, 2)"}, docs))
+    out.append(({"A": {"all(f)": ["?.*", "?.*foo.*"]}, "condition": "A"}, docs))
+    return out
+
+
 def already_optimised():
     out = []
     docs = [{"f": "foo"}, {"f": "xfoo", "g": "bar"}, {}]
@@ -320,7 +336,7 @@ def loader_errors():
 FAMILIES = [("scalar_casts", scalar_casts), ("list_casts", list_casts), ("cond_casts", cond_casts),
             ("quantified_cast_bodies", quantified_cast_bodies), ("many_needles", many_needles), ("nested_matrix", nested_matrix), ("nested_and_merge", nested_and_merge), ("wide_matrix", wide_matrix),
             ("wide_matrix_quant", wide_matrix_quant), ("matrix_duplicate_fields", matrix_duplicate_fields),
-            ("sort_comparators", sort_comparators), ("sort_ties", sort_ties), ("list_of_blocks", list_of_blocks), ("already_optimised", already_optimised), ("loader_errors", loader_errors)]
+            ("sort_comparators", sort_comparators), ("sort_ties", sort_ties), ("rewrite_patterns", rewrite_patterns), ("list_of_blocks", list_of_blocks), ("already_optimised", already_optimised), ("loader_errors", loader_errors)]
 
 
 def all_cases(skip=()):
